@@ -581,6 +581,35 @@ func (c *FnCtx) specCall(env *SpecEnv, x *ast.CallExpr) *Val {
 		}
 	case "bitand":
 		return c.binop(env.st, token.AND, arg(0), arg(1), nil, nil)
+	case "f32":
+		// round to float32 (RNE) and widen back to float64: the value float64(float32(x)) as an FP64 term
+		a := arg(0)
+		if isFP(a.S) {
+			return &Val{T: fmt.Sprintf("((_ to_fp 11 53) RNE ((_ to_fp 8 24) RNE %s))", a.T), S: "(_ FloatingPoint 11 53)"}
+		}
+		return a
+	case "widen":
+		a := arg(0)
+		if isFP(a.S) {
+			return &Val{T: fmt.Sprintf("((_ to_fp 11 53) RNE %s)", a.T), S: "(_ FloatingPoint 11 53)"}
+		}
+		return a
+	case "isNaN":
+		a := arg(0)
+		if isFP(a.S) {
+			return &Val{T: tApp("fp.isNaN", a.T), S: SBool}
+		}
+		return &Val{T: "false", S: SBool}
+	case "allf64":
+		id, ok := x.Args[0].(*ast.Ident)
+		if !ok {
+			c.specErr("allf64: first argument must be an identifier")
+			return &Val{T: "false", S: SBool}
+		}
+		c.nfresh++
+		vn := fmt.Sprintf("%s!q%d", id.Name, c.nfresh)
+		body := c.specBool(env.withBound(id.Name, &Val{T: vn, S: "(_ FloatingPoint 11 53)"}), x.Args[1])
+		return &Val{T: fmt.Sprintf("(forall ((%s (_ FloatingPoint 11 53))) %s)", vn, body), S: SBool}
 	case "toreal":
 		return &Val{T: tApp("to_real", arg(0).T), S: SReal}
 	case "dyntype":
